@@ -18,7 +18,7 @@ ITEM_HARNESS = {
     'builder::SourceMapBuilder::add_with_id': ['ordering', 'builder_model'], 'builder::SourceMapBuilder::add_raw': ['ordering'], 'builder::SourceMapBuilder::add': ['ordering', 'builder_model'],
     'builder::SourceMapBuilder::add_source_with_id': ['builder_model', 'rewrite'], 'builder::SourceMapBuilder::add_source': ['builder_model'], 'builder::SourceMapBuilder::add_name': ['builder_model'], 'builder::SourceMapBuilder::add_to_ignore_list': ['builder_model'],
     'builder::SourceMapBuilder::set_source_contents': ['builder_model', 'rewrite'], 'builder::SourceMapBuilder::get_source_contents': ['builder_model'],
-    'builder::SourceMapBuilder::add_token': ['rewrite'], 'builder::SourceMapBuilder::strip_prefixes': ['rewrite'], 'builder::SourceMapBuilder::take_mapping': ['hermes_rewrite'],
+    'builder::SourceMapBuilder::add_token': ['rewrite'], 'builder::SourceMapBuilder::strip_prefixes': ['rewrite'], 'builder::SourceMapBuilder::take_mapping': ['hermes_rewrite'], 'hermes::SourceMapHermes::rewrite': ['hermes_rewrite'],
     'decoder::StripHeaderReader::strip_head_read': ['header'], 'decoder::StripHeaderReader::read': ['header'], 'decoder::strip_junk_header': ['header'],
     'decoder::is_junk_json': ['header'], 'decoder::StripHeaderReader::new': ['header'],
     'decoder::decode_rmi': ['rmi_roundtrip'], 'decoder::decode_regular__mappings_loop': ['decode_extreme', 'roundtrip', 'rmi_roundtrip', 'raw_keys'],
